@@ -68,32 +68,43 @@ def propagate(repo, res):
     own = [c for c in walk_no_nested(sa) if isinstance(c, ast.Call) and isinstance(c.func, ast.Attribute) and c.func.attr == "__setattr__" and isinstance(c.func.value, ast.Call) and call_name(c.func.value) in ("super", "object")]
     own += [c for c in walk_no_nested(sa) if isinstance(c, ast.Call) and call_name(c) == "object.__setattr__"]
     res.check("P-PROPAGATE", "__setattr__ stores the field on the object itself", len(own) == 1 and [norm(a) for a in own[0].args][-2:] == [pname, pval], m, sa, "own store %s" % [norm(c) for c in own], "a parameter set on a group is not stored on that group", qualname="BaseParam.__setattr__")
+    from ..dataflow import ReachingDefs as _RD
+    from ..flowtools import canon_guards
+
+    srd = _RD(sa)
     for c in own:
-        guards = dominating_guards(m, c, stop=sa)
-        ok = all(pol and isinstance(t, ast.Compare) and isinstance(t.ops[0], ast.In) and norm(t.left) == pname and "fields" in norm(t.comparators[0]) for t, pol in guards) and len(guards) <= 1
-        res.check("P-PROPAGATE", "own store is conditional only on the field being declared", ok, m, c, "super().__setattr__ under %s" % [norm(t) for t, _p in guards], "declared fields are not always stored", qualname="BaseParam.__setattr__")
-    # forwarding loop
-    loops = [n for n in walk_no_nested(sa) if isinstance(n, ast.For)]
+        guards = canon_guards(m, c, sa, srd, [pname, pval])
+        ok = len(guards) <= 1 and all(pol and isinstance(n, ast.Compare) and isinstance(n.ops[0], ast.In) and norm(n.left) == pname and "fields" in t for t, pol, n in guards)
+        res.check("P-PROPAGATE", "own store is conditional only on the field being declared", ok, m, c, "super().__setattr__ under %s" % [t for t, _p, _n in guards], "declared fields are not always stored", qualname="BaseParam.__setattr__")
+    # forwarding loop: in __setattr__ itself or in a same-class helper that receives (name, value) unchanged
+    regions = [(sa, pname, pval, [])]
+    for c in walk_no_nested(sa):
+        if isinstance(c, ast.Call) and isinstance(c.func, ast.Attribute) and isinstance(c.func.value, ast.Name) and c.func.value.id == "self" and c.func.attr in base.methods and c.func.attr != "__setattr__":
+            h = base.methods[c.func.attr]
+            hp = [a.arg for a in h.args.args][1:]
+            if [norm(a) for a in c.args] == [pname, pval] and len(hp) == 2 and not c.keywords:
+                regions.append((h, hp[0], hp[1], canon_guards(m, c, sa, srd, [pname, pval])))
     fw = []
-    for lp in loops:
-        it = norm(lp.iter)
-        if it not in ("self.__dict__.items()", "self.__dict__.values()", "vars(self).items()", "vars(self).values()"):
-            continue
-        tv = lp.target.elts[-1] if isinstance(lp.target, ast.Tuple) else lp.target
-        for c in ast.walk(lp):
-            if isinstance(c, ast.Call) and ((isinstance(c.func, ast.Attribute) and c.func.attr == "__setattr__" and norm(c.func.value) == norm(tv) and [norm(a) for a in c.args] == [pname, pval]) or (call_name(c) == "setattr" and [norm(a) for a in c.args] == [norm(tv), pname, pval])):
-                fw.append((lp, tv, c))
+    for rf, rn, rv, outer in regions:
+        for lp in [n for n in walk_no_nested(rf) if isinstance(n, ast.For)]:
+            it = norm(lp.iter)
+            if it not in ("self.__dict__.items()", "self.__dict__.values()", "vars(self).items()", "vars(self).values()"):
+                continue
+            tv = lp.target.elts[-1] if isinstance(lp.target, ast.Tuple) else lp.target
+            for c in ast.walk(lp):
+                if isinstance(c, ast.Call) and ((isinstance(c.func, ast.Attribute) and c.func.attr == "__setattr__" and norm(c.func.value) == norm(tv) and [norm(a) for a in c.args] == [rn, rv]) or (call_name(c) == "setattr" and [norm(a) for a in c.args] == [norm(tv), rn, rv])):
+                    fw.append((lp, tv, c, rf, outer))
     res.check("P-PROPAGATE", "__setattr__ forwards (name, value) to the values of self.__dict__", len(fw) == 1, m, sa, "%d forwarding calls over self.__dict__" % len(fw), "a parameter set on a group does not reach its nested groups (or reaches them modified)", qualname="BaseParam.__setattr__")
-    for lp, tv, c in fw:
-        guards = dominating_guards(m, c, stop=sa)
+    for lp, tv, c, rf, outer in fw:
+        guards = [(t, pol, n) for t, pol, n in outer] + [(norm(t), pol, t) for t, pol in dominating_guards(m, c, stop=rf)]
         kinds = []
-        for t, pol in guards:
+        for txt, pol, t in guards:
             if pol and isinstance(t, ast.Call) and call_name(t) == "isinstance" and norm(t.args[0]) == norm(tv) and "BaseParam" in norm(t.args[1]):
                 kinds.append("isinstance")
             elif pol and isinstance(t, ast.Attribute) and norm(t.value) == "self" and "initialized" in t.attr:
                 kinds.append("initialized")
             else:
-                kinds.append("other:" + norm(t))
+                kinds.append("other:" + txt)
         ok = sorted(kinds) == ["initialized", "isinstance"]
         res.check("P-PROPAGATE", "forwarding happens for every nested BaseParam whenever the object is initialised", ok, m, c, "forward under %s" % sorted(kinds), "forwarding is restricted (e.g. to names the outer group declares, or to some nested groups): a time window set at the top level does not reach every drawn object", qualname="BaseParam.__setattr__")
         stops = [n for n in ast.walk(lp) if isinstance(n, (ast.Break, ast.Return))]
@@ -385,8 +396,17 @@ def renderer(repo, res, classes):
                 if ok:
                     lo = canon(it.args[0], rd, in_loop, ["obj", "draw_params"])
                     hi = canon(it.args[1], rd, in_loop, ["obj", "draw_params"])
-                    los = {norm(d.node) for d in rd.defs(it.args[0].id, in_loop)} if isinstance(it.args[0], ast.Name) else {lo}
-                    los = {canon(ast.parse(x, mode="eval").body, rd, in_loop, ["obj", "draw_params"]) for x in los}
+                    los_nodes = [d.node for d in rd.defs(it.args[0].id, in_loop) if d.node is not None] if isinstance(it.args[0], ast.Name) else [it.args[0]]
+                    flat_ = []
+                    for ln_ in los_nodes:
+                        stack_ = [ln_]
+                        while stack_:
+                            q_ = stack_.pop()
+                            if isinstance(q_, ast.IfExp):
+                                stack_ += [q_.body, q_.orelse]
+                            else:
+                                flat_.append(q_)
+                    los = {canon(x, rd, in_loop, ["obj", "draw_params"]) for x in flat_}
                     ok = hi == "draw_params.time_end" and los <= {"draw_params.time_begin", "draw_params.time_begin + 1", "time_begin", "time_begin + 1"}
                 res.check("D-TIME", "%s draws further occupancies for steps within [time_begin, time_end)" % name, ok, m, c, "%s for %s in %s" % (norm(c), norm(in_loop.target), norm(it)), "occupancies outside the selected time window are drawn", qualname=qn)
         res.check("D-TIME", "%s draws the shape at the begin of the window" % name, first_kind >= 1, m, fn, "%d occupancy queries outside loops" % first_kind, "no occupancy at the selected begin time step is drawn", qualname=qn)
@@ -397,23 +417,47 @@ def renderer(repo, res, classes):
         raise AnalysisError("draw_lanelet_network missing")
     rd = ReachingDefs(fn)
     qn = "MPRenderer.draw_lanelet_network"
-    main = [lp for lp in walk_no_nested(fn) if isinstance(lp, ast.For) and "lanelets" in canon(lp.iter, rd, lp, ["obj"]) and any(isinstance(x, ast.Attribute) and x.attr == "center_vertices" for x in ast.walk(lp))]
+    from ..flowtools import bool_equiv
+
+    main = [lp for lp in walk_no_nested(fn) if isinstance(lp, ast.For) and any(isinstance(x, ast.Attribute) and x.attr == "center_vertices" for x in ast.walk(lp))]
     res.check("D-LANELETS", "one loop collects the lanelet geometry", len(main) == 1, m, fn, "%d lanelet loops" % len(main), "lanelet geometry is collected in an unexpected way", qualname=qn)
     for lp in main:
-        it = canon(lp.iter, rd, lp, ["obj"])
-        res.check("D-LANELETS", "the loop runs over all lanelets of the network", it in ("enumerate(obj.lanelets)", "obj.lanelets"), m, lp, "for .. in %s" % it, "not every lanelet of the network can be drawn", qualname=qn)
-        lv = norm(lp.target.elts[-1]) if isinstance(lp.target, ast.Tuple) else norm(lp.target)
-        skips = [s for s in lp.body if isinstance(s, ast.If) and any(isinstance(x, ast.Continue) for x in s.body)]
-        skips += [s for s in lp.body if isinstance(s, (ast.Continue, ast.Break))]
-        res.check("D-LANELETS", "exactly one skip condition in the lanelet loop", len(skips) == 1 and isinstance(skips[0], ast.If), m, lp, "%d skip statements" % len(skips), "lanelets are skipped for another reason than the id filter (or the filter is gone)", qualname=qn)
-        for s in skips:
-            if not isinstance(s, ast.If):
-                continue
-            t = canon(s.test, rd, s, ["obj", "draw_params"])
-            ok = t in ("isinstance(draw_params.draw_ids, list) and %s.lanelet_id not in draw_params.draw_ids" % lv, "draw_params.draw_ids is not None and %s.lanelet_id not in draw_params.draw_ids" % lv)
-            res.check("D-LANELETS", "a lanelet is skipped iff a selection is given and its id is not selected", ok, m, s, "skip if %s" % t, "the lanelet id filter draws other lanelets than the selected ones", qualname=qn)
-    for brk in [b for lp in main for b in ast.walk(lp) if isinstance(b, ast.Break)]:
-        pass
+        # the loop may run over all lanelets and skip, or over a pre-selected list: in both cases
+        #   drawn(l)  <=>  l in obj.lanelets and SEL(l)   with  SEL = not (a selection is given and l is not selected)
+        it_node = lp.iter
+        pre = None
+        if isinstance(it_node, ast.Name):
+            ds = [d.node for d in rd.defs(it_node.id, lp) if d.node is not None]
+            if len(ds) == 1:
+                it_node = ds[0]
+        if isinstance(it_node, (ast.ListComp, ast.GeneratorExp)) and len(it_node.generators) == 1:
+            pre = it_node
+            base_it = canon(pre.generators[0].iter, rd, lp, ["obj"])
+            lv_node = pre.generators[0].target
+        else:
+            base_it = canon(it_node, rd, lp, ["obj"])
+            lv_node = lp.target
+        res.check("D-LANELETS", "the loop runs over all lanelets of the network", base_it in ("enumerate(obj.lanelets)", "obj.lanelets"), m, lp, "for .. in %s" % base_it, "not every lanelet of the network can be drawn", qualname=qn)
+        lv = norm(lv_node.elts[-1]) if isinstance(lv_node, ast.Tuple) else norm(lv_node)
+        skips = [s_ for s_ in lp.body if isinstance(s_, ast.If) and any(isinstance(x, ast.Continue) for x in s_.body)]
+        hard = [s_ for s_ in lp.body if isinstance(s_, (ast.Continue, ast.Break))]
+        conds = []  # selection = conjunction of these
+        if pre is not None:
+            if isinstance(pre.elt, ast.Tuple):
+                ok_elt = [norm(x) for x in pre.elt.elts] == [norm(x) for x in (lv_node.elts if isinstance(lv_node, ast.Tuple) else [lv_node])]
+            else:
+                ok_elt = norm(pre.elt) == norm(lv_node)
+            res.check("D-LANELETS", "the pre-selection passes the lanelets on unchanged", ok_elt, m, pre, norm(pre)[:90], "the drawn objects are not the selected lanelets", qualname=qn)
+            for c_ in pre.generators[0].ifs:
+                conds.append(ast.parse(canon(c_, rd, lp, ["obj", "draw_params"]), mode="eval").body)
+        for s_ in skips:
+            conds.append(ast.UnaryOp(op=ast.Not(), operand=ast.parse(canon(s_.test, rd, s_, ["obj", "draw_params"]), mode="eval").body))
+        res.check("D-LANELETS", "lanelets are skipped only through the id filter", not hard and len(conds) >= 1, m, lp, "%d unconditional skips, %d filter conditions" % (len(hard), len(conds)), "lanelets are skipped for another reason than the id filter (or the filter is gone)", qualname=qn)
+        if conds:
+            sel = conds[0] if len(conds) == 1 else ast.BoolOp(op=ast.And(), values=conds)
+            wants = [ast.parse(x % {"l": lv}, mode="eval").body for x in ("not (isinstance(draw_params.draw_ids, list) and %(l)s.lanelet_id not in draw_params.draw_ids)", "not (draw_params.draw_ids is not None and %(l)s.lanelet_id not in draw_params.draw_ids)")]
+            ok = any(bool_equiv(sel, w_) for w_ in wants)
+            res.check("D-LANELETS", "a lanelet is drawn iff no selection is given or its id is selected", ok, m, lp, "selection %s" % " ".join(ast.unparse(sel).split())[:120], "the lanelet id filter draws other lanelets than the selected ones", qualname=qn)
 
 
 def run(repo, res, tier):
